@@ -64,6 +64,11 @@ for m, tag in (("U", "ok"), ("R", "bad_unit")):
     add(f"{tag}_ctx_publish", "ctxPublish", "A1", m, f"let _ = ctx.publish({m}).await;", "CTX1")
     add(f"{tag}_broker_publish", "brokerPublish", "A1", m, f"let _ = Broker::publish({m}).await;")
     add(f"{tag}_broker_subscribe", "brokerSubscribe", "A1", m, f"let _ = Broker::<{m}>::subscribe(todo!()).await;")
+for m, tag in (("U", "ok"), ("R", "bad_unit")):
+    add(f"{tag}_broker_try_publish", "brokerTryPublish", "A1", m, f"let _ = Broker::try_publish({m}).await;")
+    add(f"{tag}_broker_addr_publish", "brokerAddrPublish", "A1", m, f"let b: Addr<Broker<{m}>> = todo!(); let _ = b.publish({m}).await;")
+    add(f"{tag}_broker_addr_subscribe", "brokerAddrSubscribe", "A1", m, f"let b: Addr<Broker<{m}>> = todo!(); let _ = b.subscribe(todo!()).await;")
+    add(f"{tag}_broker_addr_unsubscribe", "brokerAddrUnsubscribe", "A1", m, f"let b: Addr<Broker<{m}>> = todo!(); let _ = b.unsubscribe(todo!()).await;")
 add("ok_addr_restart", "addrRestart", "A3", "U", "let _ = addr3.restart();")
 add("bad_restartable_addr_restart", "addrRestart", "A1", "U", "let _ = addr1m.restart();")
 add("ok_ctx_restart", "ctxRestart", "A3", "U", "let _ = ctx.restart();", "CTX3")
@@ -77,6 +82,10 @@ add("ok_builder_on_stream", "builderOnStream", "A2", "U", f"let _ = hannibal::bu
 add("bad_streamhandler_builder_on_stream", "builderOnStream", "A1", "U", f"let _ = hannibal::build(A1).on_stream({st});", item=10)
 add("ok_builder_bounded_on_stream", "builderBoundedOnStream", "A2", "U", f"let _ = hannibal::build(A2).bounded_on_stream(1, {st});", item=10)
 add("bad_streamhandler_builder_bounded_on_stream", "builderBoundedOnStream", "A1", "U", f"let _ = hannibal::build(A1).bounded_on_stream(1, {st});", item=10)
+add("ok_spawn_on_stream", "spawnOnStream", "A2", "U", f"let _ = A2.spawn_on_stream({st});", item=10)
+add("bad_streamhandler_spawn_on_stream", "spawnOnStream", "A1", "U", f"let _ = A1.spawn_on_stream({st});", item=10)
+add("ok_spawn_owning_on_stream", "spawnOwningOnStream", "A2", "U", f"let _ = A2.spawn_owning_on_stream({st});", item=10)
+add("bad_streamhandler_spawn_owning_on_stream", "spawnOwningOnStream", "A1", "U", f"let _ = A1.spawn_owning_on_stream({st});", item=10)
 add("ok_recreate_from_default", "recreateFromDefault", "A3", "U", "let _ = hannibal::build(A3).unbounded().recreate_from_default();")
 add("bad_default_recreate_from_default", "recreateFromDefault", "A4", "U", "let _ = hannibal::build(A4).unbounded().recreate_from_default();")
 add("bad_restartable_recreate_from_default", "recreateFromDefault", "A1", "U", "let _ = hannibal::build(A1).unbounded().recreate_from_default();")
